@@ -898,8 +898,315 @@ def translate_paths(repo):
     return PATH_HEADER.format(path="toasty/pyramid.py (class PyramidIO: tile naming)") + t.run()
 
 
+# ---------------------------------------------------------------------------------------------
+# toasty/fits_tiler.py: the orchestration of FitsTiler._tile_toast as a script of calls
+
+class ScriptTranslator:
+    """FitsTiler._tile_toast as a function from (images, start given by the caller, parallel, cli_progress)
+    to the list of calls it makes on self.builder, with their arguments as symbolic values (sval, in
+    Model/SrcPrelude.v): `x.attr` is SAttr "attr" x, `x.m()` is SCallM "m" x, `Cls(k=v, ...)` is
+    SNew "Cls" [...], the loop variable is SImg image, integers / optional integers / booleans are
+    SZ / SOptZ / SB, an inner `def` that closes over a list is SClosure "name" that-list (its body is
+    translated separately, a for loop with early returns becoming src_first_some), `a, b = x._naxis` binds
+    SIdx 0 / SIdx 1 of SAttr "_naxis" x.  Statement forms (anything else fails, fail closed):
+      N = kwargs.pop("lit", None)                       -> the parameter given_lit : option Z
+      if N is None: N = k; for V in self.coll.images(): (ifs and assignments computing N)
+                                                          -> a fold_left over the images from k
+      if cli_progress: print(...) / import ...; bare print / from-import      -> dropped (no result)
+      L = []                                             -> a list filled by L.append(x) in the next loop
+      for V in self.coll.images(): locals; self.builder.m(...); L.append(x); W = expr
+                                                          -> one call per image (map), L = map ..., W of the LAST image
+      def f(tile): for g in L: if g(tile): return True ... return False   -> closure over L
+      self.builder.m(...)                                -> one call
+    With no image the loop leaves W unbound and its later use raises: the script is None then."""
+
+    def __init__(self, source):
+        self.tree = ast.parse(source)
+        cls = [n for n in self.tree.body if isinstance(n, ast.ClassDef) and n.name == "FitsTiler"]
+        if len(cls) != 1:
+            raise Unsupported("class FitsTiler not found")
+        fds = [n for n in cls[0].body if isinstance(n, ast.FunctionDef) and n.name == "_tile_toast"]
+        if len(fds) != 1:
+            raise Unsupported("FitsTiler._tile_toast not found")
+        self.fd = fds[0]
+        a = self.fd.args
+        if [x.arg for x in a.args] != ["self", "cli_progress", "parallel"] or a.vararg or a.kwonlyargs or a.defaults \
+                or a.kwarg is None or a.kwarg.arg != "kwargs":
+            raise Unsupported("signature of _tile_toast outside the subset")
+        self.counter = 0
+        self.defs = []
+
+    def fail(self, node, why):
+        raise Unsupported(f"line {getattr(node, 'lineno', '?')}: {why}: {ast.dump(node)[:140]}")
+
+    def fresh(self, b):
+        self.counter += 1
+        return f"{b}_{self.counter}"
+
+    @staticmethod
+    def lit(sv):
+        return '"' + sv.replace('"', '""') + '"'
+
+    def is_images(self, e):
+        return (isinstance(e, ast.Call) and not e.args and not e.keywords and isinstance(e.func, ast.Attribute)
+                and e.func.attr == "images" and isinstance(e.func.value, ast.Attribute) and e.func.value.attr == "coll"
+                and isinstance(e.func.value.value, ast.Name) and e.func.value.value.id == "self")
+
+    def effect_only(self, s):
+        if isinstance(s, (ast.Import, ast.ImportFrom)):
+            return True
+        if isinstance(s, ast.Expr) and isinstance(s.value, ast.Call) and isinstance(s.value.func, ast.Name) and s.value.func.id == "print":
+            return True
+        if isinstance(s, ast.Expr) and isinstance(s.value, ast.Constant) and isinstance(s.value.value, str):
+            return True
+        if isinstance(s, ast.If) and not s.orelse and isinstance(s.test, ast.Name) and s.test.id == "cli_progress":
+            return all(self.effect_only(b) for b in s.body)
+        return False
+
+    # symbolic value of an expression; env: name -> (term, kind) with kind sval | Z | list
+    def sval(self, e, env):
+        if isinstance(e, ast.Name):
+            if e.id not in env:
+                self.fail(e, "unknown name")
+            t, k = env[e.id]
+            return {"sval": t, "Z": f"(SZ {t})", "optZ": f"(SOptZ {t})", "bool": f"(SB {t})", "image": f"(SImg {t})",
+                    "closure": t}.get(k) or self.fail(e, f"a {k} used as a value")
+        if isinstance(e, ast.Attribute):
+            return f"(SAttr {self.lit(e.attr)} {self.sval(e.value, env)})"
+        if isinstance(e, ast.Call) and isinstance(e.func, ast.Attribute) and not e.args and not e.keywords:
+            return f"(SCallM {self.lit(e.func.attr)} {self.sval(e.func.value, env)})"
+        if isinstance(e, ast.Call) and isinstance(e.func, ast.Name) and not e.args:
+            kws = "; ".join(f"({self.lit(k.arg)}, {self.sval(k.value, env)})" for k in e.keywords)
+            return f"(SNew {self.lit(e.func.id)} [{kws}])"
+        self.fail(e, "value outside the subset")
+
+    def builder_call(self, s, env):
+        c = s.value
+        if not (isinstance(s, ast.Expr) and isinstance(c, ast.Call) and isinstance(c.func, ast.Attribute)
+                and isinstance(c.func.value, ast.Attribute) and c.func.value.attr == "builder"
+                and isinstance(c.func.value.value, ast.Name) and c.func.value.value.id == "self"):
+            return None
+        pos = "; ".join(self.sval(a, env) for a in c.args)
+        kws = "; ".join(f"({self.lit(k.arg)}, {self.sval(k.value, env)})" for k in c.keywords)
+        return f"(SCall {self.lit('builder.' + c.func.attr)} [{pos}] [{kws}])"
+
+    # the body of the level-guessing loop: returns the new value of the state variable
+    def state_body(self, stmts, env, var):
+        if not stmts:
+            return env[var][0]
+        s, rest = stmts[0], stmts[1:]
+        if isinstance(s, ast.If) and not s.orelse:
+            c = self.cond(s.test, env)
+            # Python: after the if, control continues with rest in both cases
+            then_v = self.state_body(list(s.body) + rest, env, var)
+            else_v = self.state_body(rest, env, var)
+            return f"(if {c} then {then_v} else {else_v})"
+        if isinstance(s, ast.Assign) and len(s.targets) == 1 and isinstance(s.targets[0], ast.Name):
+            n = s.targets[0].id
+            t = self.zexpr(s.value, env)
+            g = self.fresh(n)
+            env2 = dict(env)
+            env2[n] = (g, "Z")
+            return f"(let {g} := {t} in {self.state_body(rest, env2, var)})"
+        self.fail(s, "statement in the level loop outside the subset")
+
+    def cond(self, e, env):
+        if isinstance(e, ast.Compare) and len(e.ops) == 1 and type(e.ops[0]) in CMPOPS:
+            return f"({self.zexpr(e.left, env)} {CMPOPS[type(e.ops[0])]} {self.zexpr(e.comparators[0], env)})"
+        if isinstance(e, ast.Call) and isinstance(e.func, ast.Attribute) and isinstance(e.func.value, ast.Name) \
+                and env.get(e.func.value.id, (None, None))[1] == "image" and not e.args and not e.keywords:
+            return f"(src_image_{e.func.attr} {env[e.func.value.id][0]})"
+        self.fail(e, "condition outside the subset")
+
+    def zexpr(self, e, env):
+        if isinstance(e, ast.Constant) and isinstance(e.value, int) and not isinstance(e.value, bool):
+            return str(e.value)
+        if isinstance(e, ast.Name) and env.get(e.id, (None, None))[1] == "Z":
+            return env[e.id][0]
+        # pyramid.guess_base_layer_level(wcs=image.wcs): an oracle on the image
+        if isinstance(e, ast.Call) and isinstance(e.func, ast.Attribute) and not e.args and len(e.keywords) == 1:
+            kw = e.keywords[0]
+            if isinstance(kw.value, ast.Attribute) and isinstance(kw.value.value, ast.Name) \
+                    and env.get(kw.value.value.id, (None, None))[1] == "image" and kw.arg == kw.value.attr:
+                return f"(src_{e.func.attr} {env[kw.value.value.id][0]})"
+        self.fail(e, "integer expression outside the subset")
+
+    def closure(self, fd, env):
+        if len(fd.args.args) != 1 or fd.args.defaults or fd.args.vararg or fd.args.kwarg:
+            self.fail(fd, "closure signature")
+        arg = fd.args.args[0].arg
+        body = [b for b in fd.body if not (isinstance(b, ast.Expr) and isinstance(b.value, ast.Constant))]
+        if len(body) != 2 or not isinstance(body[0], ast.For) or body[0].orelse or not isinstance(body[1], ast.Return):
+            self.fail(fd, "closure body outside the subset (a for loop, then a return)")
+        loop, fin = body
+        if not (isinstance(loop.iter, ast.Name) and env.get(loop.iter.id, (None, None))[1] == "list" and isinstance(loop.target, ast.Name)):
+            self.fail(loop, "closure loop must run over the captured list")
+        g = loop.target.id
+
+        def ret(v):
+            if isinstance(v, ast.Constant) and isinstance(v.value, bool):
+                return "true" if v.value else "false"
+            self.fail(v, "closure returns something other than True / False")
+
+        def step(stmts):
+            # value of one iteration: Some b = return b, None = go on
+            if not stmts:
+                return "None"
+            s, rest = stmts[0], stmts[1:]
+            if isinstance(s, ast.Return):
+                return f"Some {ret(s.value)}"
+            if isinstance(s, ast.If) and not s.orelse and isinstance(s.test, ast.Call) and isinstance(s.test.func, ast.Name) \
+                    and s.test.func.id == g and len(s.test.args) == 1 and isinstance(s.test.args[0], ast.Name) and s.test.args[0].id == arg:
+                return f"(if {g} {arg} then {step(list(s.body) + rest)} else {step(rest)})"
+            self.fail(s, "closure loop body outside the subset")
+        name = f"src_tile_toast_{fd.name}"
+        self.defs.append(f"Definition {name} {{tile_t : Type}} ({loop.iter.id} : list (tile_t -> bool)) ({arg} : tile_t) : bool :=\n"
+                         f"  match src_first_some (fun {g} : tile_t -> bool => {step(list(loop.body))}) {loop.iter.id} with Some b => b | None => {ret(fin.value)} end.\n")
+        return loop.iter.id
+
+    def run(self):
+        env = {"cli_progress": ("cli_progress", "bool"), "parallel": ("parallel", "optZ")}
+        params = []
+        stmts = [s for s in self.fd.body]
+        lets = []
+        events = []          # list of Gallina terms of type list sevent
+        needs_last = None
+        i = 0
+        pending_list = None
+        while i < len(stmts):
+            s = stmts[i]
+            i += 1
+            if self.effect_only(s):
+                continue
+            # N = kwargs.pop("lit", None)
+            if isinstance(s, ast.Assign) and len(s.targets) == 1 and isinstance(s.targets[0], ast.Name) and isinstance(s.value, ast.Call) \
+                    and isinstance(s.value.func, ast.Attribute) and s.value.func.attr == "pop" and isinstance(s.value.func.value, ast.Name) \
+                    and s.value.func.value.id == "kwargs" and len(s.value.args) == 2 and isinstance(s.value.args[0], ast.Constant) \
+                    and isinstance(s.value.args[1], ast.Constant) and s.value.args[1].value is None:
+                p = "given_" + s.value.args[0].value
+                params.append(p)
+                env[s.targets[0].id] = (p, "optZ")
+                continue
+            # if N is None: N = k; for ...: ...
+            if isinstance(s, ast.If) and not s.orelse and isinstance(s.test, ast.Compare) and isinstance(s.test.left, ast.Name) \
+                    and len(s.test.ops) == 1 and isinstance(s.test.ops[0], ast.Is) and isinstance(s.test.comparators[0], ast.Constant) \
+                    and s.test.comparators[0].value is None and env.get(s.test.left.id, (None, None))[1] == "optZ":
+                var = s.test.left.id
+                body = [b for b in s.body if not self.effect_only(b)]
+                if len(body) != 2 or not (isinstance(body[0], ast.Assign) and isinstance(body[0].targets[0], ast.Name)
+                                          and body[0].targets[0].id == var and isinstance(body[0].value, ast.Constant)
+                                          and isinstance(body[0].value.value, int)) \
+                        or not (isinstance(body[1], ast.For) and not body[1].orelse and self.is_images(body[1].iter)
+                                and isinstance(body[1].target, ast.Name)):
+                    self.fail(s, "default computation outside the subset")
+                init = body[0].value.value
+                lv = body[1].target.id
+                a, im = self.fresh(var), self.fresh(lv)
+                benv = dict(env)
+                benv[var] = (a, "Z")
+                benv[lv] = (im, "image")
+                step = self.state_body(list(body[1].body), benv, var)
+                g = self.fresh(var)
+                lets.append(f"let {g} := match {env[var][0]} with Some v => v | None => "
+                            f"fold_left (fun {a} {im} => {step}) images {init} end in")
+                env[var] = (g, "Z")
+                continue
+            # L = []
+            if isinstance(s, ast.Assign) and len(s.targets) == 1 and isinstance(s.targets[0], ast.Name) \
+                    and isinstance(s.value, ast.List) and not s.value.elts:
+                pending_list = s.targets[0].id
+                continue
+            # the main loop
+            if isinstance(s, ast.For) and not s.orelse and self.is_images(s.iter) and isinstance(s.target, ast.Name):
+                lv = s.target.id
+                im = self.fresh(lv)
+                benv = dict(env)
+                benv[lv] = (im, "image")
+                call = appended = None
+                last_assign = {}
+                for b in s.body:
+                    if self.effect_only(b):
+                        continue
+                    bc = self.builder_call(b, benv) if isinstance(b, ast.Expr) else None
+                    if bc is not None:
+                        if call is not None:
+                            self.fail(b, "more than one builder call per image")
+                        call = bc
+                        continue
+                    if isinstance(b, ast.Expr) and isinstance(b.value, ast.Call) and isinstance(b.value.func, ast.Attribute) \
+                            and b.value.func.attr == "append" and isinstance(b.value.func.value, ast.Name) \
+                            and b.value.func.value.id == pending_list and len(b.value.args) == 1:
+                        if appended is not None:
+                            self.fail(b, "two appends per image")
+                        appended = self.sval(b.value.args[0], benv)
+                        continue
+                    if isinstance(b, ast.Assign) and len(b.targets) == 1 and isinstance(b.targets[0], ast.Name):
+                        n = b.targets[0].id
+                        v = self.sval(b.value, benv)
+                        if call is None and appended is None:
+                            benv[n] = (v, "sval")          # a local of the iteration (before the call)
+                        else:
+                            last_assign[n] = v            # survives the loop: the value of the last iteration
+                        continue
+                    self.fail(b, "statement in the image loop outside the subset")
+                if call is None:
+                    self.fail(s, "image loop without a builder call")
+                events.append(f"map (fun {im} => {call}) images")
+                if pending_list is not None:
+                    if appended is None:
+                        self.fail(s, "the list is never appended to")
+                    g = self.fresh(pending_list)
+                    lets.append(f"let {g} := map (fun {im} => {appended}) images in")
+                    env[pending_list] = (g, "list")
+                    pending_list = None
+                for n, v in last_assign.items():
+                    g = self.fresh(n)
+                    lets.append(f"let {g} := (fun {im} => {v}) last_image in")
+                    env[n] = (g, "sval")
+                    needs_last = True
+                continue
+            # def f(tile): ...
+            if isinstance(s, ast.FunctionDef):
+                captured = self.closure(s, env)
+                env[s.name] = (f"(SClosure {self.lit(s.name)} {env[captured][0]})", "closure")
+                continue
+            # a, b = x._naxis
+            if isinstance(s, ast.Assign) and len(s.targets) == 1 and isinstance(s.targets[0], ast.Tuple) \
+                    and all(isinstance(x, ast.Name) for x in s.targets[0].elts) and isinstance(s.value, ast.Attribute):
+                v = self.sval(s.value, env)
+                for k, x in enumerate(s.targets[0].elts):
+                    env[x.id] = (f"(SIdx {k} {v})", "sval")
+                continue
+            bc = self.builder_call(s, env) if isinstance(s, ast.Expr) else None
+            if bc is not None:
+                events.append(f"[{bc}]")
+                continue
+            self.fail(s, "statement outside the subset")
+        body = " ++ ".join(f"({e})" for e in events) if events else "[]"
+        inner = " ".join(lets) + " Some (" + body + ")"
+        if needs_last:
+            inner = f"match rev images with [] => None | last_image :: _ => {inner} end"
+        ptxt = " ".join(f"({p} : option Z)" for p in params)
+        out = list(self.defs)
+        out.append("Section WithImages.\nVariable image : Type.\n(* image.has_wcs() and pyramid.guess_base_layer_level(wcs=image.wcs): oracles on an image *)\n"
+                   "Variable src_image_has_wcs : image -> bool.\nVariable src_guess_base_layer_level : image -> Z.\n")
+        out.append(f"Definition src_tile_toast (images : list image) (cli_progress : bool) (parallel : option Z) {ptxt}\n"
+                   f"  : option (list (sevent image)) :=\n  {inner}.\n")
+        out.append("End WithImages.\n")
+        return "\n".join(out)
+
+
+def translate_script(repo):
+    """Gallina text for the orchestration of FitsTiler._tile_toast in <repo>/toasty/fits_tiler.py (raises Unsupported)."""
+    import os
+    t = ScriptTranslator(open(os.path.join(str(repo), "toasty", "fits_tiler.py")).read())
+    hdr = PATH_HEADER.format(path="toasty/fits_tiler.py (FitsTiler._tile_toast: the calls it makes)").replace(
+        "Local Open Scope string_scope.", "Local Open Scope string_scope.\nLocal Open Scope Z_scope.\nLocal Open Scope list_scope.")
+    return hdr + t.run()
+
+
 if __name__ == "__main__":
     import sys
     which = sys.argv[2] if len(sys.argv) > 2 else "pyramid"
-    fn = {"pyramid": translate_pyramid, "study": translate_study, "paths": translate_paths}[which]
+    fn = {"pyramid": translate_pyramid, "study": translate_study, "paths": translate_paths, "script": translate_script}[which]
     sys.stdout.write(fn(sys.argv[1] if len(sys.argv) > 1 else "/repo"))
